@@ -193,6 +193,9 @@ class ClassInfo:
         return f"<Class {self.key}>"
 
 
+CALL_CTX: Dict[int, tuple] = {}   # id(Call node) -> (Project, FuncInfo of the innermost enclosing function)
+
+
 class ModuleInfo:
     def __init__(self, name: str, path: str, relpath: str, src: str):
         self.name = name
@@ -236,6 +239,7 @@ def _collect_imports(stmts: Iterable[ast.stmt], modname: str, is_package: bool) 
 
 class Project:
     def __init__(self, root: str = REPO, overrides: Optional[Dict[str, str]] = None, include_plot: bool = False):
+        CALL_CTX.clear()   # ids of the nodes of an earlier (dead) project must not be mistaken for nodes of this one; one project is alive at a time
         self.root = root
         self.modules: Dict[str, ModuleInfo] = {}
         self.by_relpath: Dict[str, ModuleInfo] = {}
@@ -277,12 +281,47 @@ class Project:
         for m in self.modules.values():
             for f in m.all_funcs:
                 self._func_by_node[id(f.node)] = f
+        self._keywordise_calls()
         # every call knows the (innermost) function it sits in, so that accessors can look through single-use temporaries (wire.kw)
         for m in self.modules.values():
             for f in sorted(m.all_funcs, key=lambda x: x.node.lineno):
                 for n in ast.walk(f.node):
                     if isinstance(n, ast.Call):
-                        n._sa_fn = f.node   # later (inner) functions overwrite the outer one
+                        CALL_CTX[id(n)] = (self, f)   # side table, not an attribute: copies of AST nodes must stay cheap; later (inner) functions overwrite the outer one
+
+    def _keywordise_calls(self):
+        """N8: f(x, y) -> f(a=x, b=y) wherever the callee resolves to project functions that agree on the names of the parameters the positional arguments bind to
+        (so that a rule sees the same call whether its arguments were written positionally or by keyword).  Calls with *args, and callees that cannot take the
+        argument by keyword, are left as written."""
+        self.keywordised = 0
+        for m in self.modules.values():
+            for f in m.all_funcs:
+                for c in f.calls():
+                    if not c.args or any(isinstance(a, ast.Starred) for a in c.args) or any(k.arg is None for k in c.keywords):
+                        continue
+                    try:
+                        tg = self.resolve_call(c, f)
+                    except Exception:
+                        tg = []
+                    if not tg:
+                        continue
+                    names = set()
+                    ok = True
+                    for t in tg:
+                        cp = t.call_params
+                        posonly = {a.arg for a in t.node.args.posonlyargs}
+                        if len(cp) < len(c.args) or any(nm in posonly for nm in cp[:len(c.args)]):
+                            ok = False
+                            break
+                        names.add(tuple(cp[:len(c.args)]))
+                    if not ok or len(names) != 1:
+                        continue
+                    nm = next(iter(names))
+                    if any(k.arg in nm for k in c.keywords):
+                        continue
+                    c.keywords = [ast.keyword(arg=a, value=v) for a, v in zip(nm, c.args)] + list(c.keywords)
+                    c.args = []
+                    self.keywordised += 1
 
     # ------------------------------------------------------------------ indexing
     def _index(self, m: ModuleInfo):
